@@ -18,7 +18,9 @@ fn handler_addr(k: usize) -> u16 {
 }
 
 /// Supervisor routine: saves R0 (and R1), bumps a counter in supervisor memory, optionally reads KBDR, restores, RTI.
-fn handler_words(k: usize, read_kbdr: bool) -> Vec<(u16, u16)> {
+const SERVICE_VECT: u16 = 0x30;
+const SERVICE_ADDR: u16 = 0x1080;
+fn handler_words(k: usize, read_kbdr: bool, calls_trap: bool) -> Vec<(u16, u16)> {
     let h = handler_addr(k);
     let cnt = h + 0x11;
     let ptr = h + 0x10;
@@ -29,6 +31,10 @@ fn handler_words(k: usize, read_kbdr: bool) -> Vec<(u16, u16)> {
     ];
     if read_kbdr {
         code.push(MInstr::Ldi { dr: 1, off: 0 }); // patched below
+    }
+    if calls_trap {
+        // the handler itself calls a (harness-installed, silent) service routine: a TRAP inside an interrupt handler
+        code.push(MInstr::Trap { vect: SERVICE_VECT as u8 });
     }
     code.push(MInstr::Ld { dr: 0, off: 0 });
     code.push(MInstr::Add { dr: 0, sr1: 0, src: Src::Imm(1) });
@@ -53,6 +59,12 @@ fn handler_words(k: usize, read_kbdr: bool) -> Vec<(u16, u16)> {
     out.push((ptr, KBDR));
     out.push((cnt, 0));
     out.push((0x180 + k as u16, h));
+    if calls_trap {
+        out.push((SERVICE_VECT, SERVICE_ADDR));
+        for (i, m) in [MInstr::Add { dr: 1, sr1: 1, src: Src::Imm(0) }, MInstr::Not { dr: 1, sr: 1 }, MInstr::Not { dr: 1, sr: 1 }, MInstr::Add { dr: 1, sr1: 1, src: Src::Imm(0) }, MInstr::Rti].iter().enumerate() {
+            out.push((SERVICE_ADDR + i as u16, isa::enc(m)));
+        }
+    }
     out
 }
 
@@ -71,7 +83,7 @@ struct Sources {
 fn build(p: &ExecProg, real: bool, sched: &Sched) -> (Rig, Sources) {
     let mut spec = spec_for_prog(p, real, false, MachineInitStrategy::Known { value: 0 });
     for k in 0..NSRC {
-        spec.overlay.extend(handler_words(k, k == 0 && sched.kbd_irq));
+        spec.overlay.extend(handler_words(k, k == 0 && sched.kbd_irq, k == 2));
     }
     if sched.kbd_irq {
         spec.kbd = Some(vec![7, 8, 9]);
@@ -133,6 +145,13 @@ fn run_sched(p: &ExecProg, real: bool, sched: &Sched, st: &mut Stats) -> Result<
         }
         step += 1;
         let psr1 = rig.sim.psr().get();
+        // only RTI lowers the priority level: neither a TRAP nor any other instruction of these programs/handlers does
+        if (psr1 >> 8) & 7 < (psr0 >> 8) & 7 && rig.sim.mem[pc0].get() != 0x8000 {
+            return Err(format!("step {} (x{:04X} at PC x{pc0:04X}): the priority level dropped from {} to {} although the instruction is not an RTI (a request of priority <= {} could now preempt the running handler)", step - 1, rig.sim.mem[pc0].get(), (psr0 >> 8) & 7, (psr1 >> 8) & 7, (psr0 >> 8) & 7));
+        }
+        if rig.sim.mem[pc0].get() == 0xF000 | SERVICE_VECT && (psr0 >> 8) & 7 > 0 && rig.sim.instructions_run != n0 {
+            st.class("trap-inside-interrupt-handler");
+        }
         // an interrupt entry: no instruction counted, one more frame, PC at a handler
         let taken = (0..NSRC).find(|k| rig.sim.pc == handler_addr(*k) && rig.sim.instructions_run == n0 && rig.sim.frame_stack.len() == depth0 + 1);
         if let Some(k) = taken {
@@ -278,7 +297,9 @@ pub fn check(tape: &[u32], st: &mut Stats) -> Result<(), String> {
         st.class(if base.steps <= 25 { "exhaustive-double-placement" } else { "sampled-double-placement" });
         for (a, b) in pairs {
             let (p1, p2) = (1 + ((a + b) % 7) as u8, 1 + ((a * 3 + b) % 7) as u8);
-            let s = Sched { events: vec![(a, 0, p1), (b, 1 + (a + b) % 2, p2)], kbd_irq: false, timer: None };
+            // the first source is the trap-calling handler (2) in a third of the pairs, so that the second request arrives while it is inside its trap
+            let (s1, s2) = if (a + 2 * b) % 3 == 0 { (2, (a + b) % 2) } else { (0, 1 + (a + b) % 2) };
+            let s = Sched { events: vec![(a, s1, p1), (b, s2, p2)], kbd_irq: false, timer: None };
             st.evaluations += 1;
             let got = run_sched(&p, real, &s, &mut local)?.ok_or("interrupted run did not finish")?;
             compare(&base, &got, &format!("two interrupts (priorities {p1},{p2}) raised at boundaries {a},{b}"))?;
@@ -336,7 +357,7 @@ pub fn run(ctx: &Ctx) -> Outcome {
     let cfg = TapeCfg::new(ctx, 300, 20_000, 600);
     out.shards = cfg.shards;
     out.absorb(tape_search(ctx, "main", &cfg, check, describe));
-    out.essential = ["exhaustive-single-placement", "exhaustive-double-placement", "random-schedule", "taken-in-user-code", "taken-inside-trap-routine", "nested-interrupt", "masked-request", "two-pending-same-boundary", "keyboard-interrupts", "timer-interrupts"].iter().map(|s| s.to_string()).collect();
+    out.essential = ["exhaustive-single-placement", "exhaustive-double-placement", "random-schedule", "taken-in-user-code", "taken-inside-trap-routine", "nested-interrupt", "masked-request", "two-pending-same-boundary", "trap-inside-interrupt-handler", "keyboard-interrupts", "timer-interrupts"].iter().map(|s| s.to_string()).collect();
     out
 }
 
